@@ -87,6 +87,7 @@ type caseJ struct {
 	Sid   string `json:"sid"`
 	E     *epJ   `json:"e"`
 	Exp   expJ   `json:"exp"`
+	Text  string `json:"text"` // replay only: the exact text to parse instead of the renderings
 }
 
 // rec is one observation.  Which observation fields are present depends on the class (the oracle reads them
@@ -443,6 +444,11 @@ func main() {
 				continue
 			}
 			optCases = append(optCases, c)
+			if c.Text != "" {
+				put(runOpt(c, ci, 0, c.Text))
+				counts["opt"]++
+				continue
+			}
 			for v := 0; v <= 1; v++ {
 				text := render(rng, c.Proto, c.Opts, v)
 				if v == 1 && len(c.Opts) == 0 && text == c.Proto {
